@@ -19,8 +19,12 @@ Meaning of the generated code: coq/CSub.v.  The subset:
     the two's-complement operations), integral casts (widening: identity; to unsigned: wrap; narrowing to signed:
     range test, failing = CUndef), calls of functions translated in the same file (arguments by value);
   * statements: declarations with/without initialiser, x = e, x op= e, x++ / ++x / x-- / --x (as statements),
-    if/else, for (init; i < e; inc) with the general loop semantics CSub.c_loop and fuel e - i + 1 computed at
-    loop entry (a loop that needs more runs out of fuel = CUnsup), return, break, continue, blocks, empty statement;
+    if/else, for (init; i < e; inc) (also <=, >, >=) with the general loop semantics CSub.c_loop and fuel
+    |e - i| + 1 (+ 1) computed at loop entry (a loop that needs more runs out of fuel = CUnsup), return, break,
+    continue, blocks, empty statement;
+  * calls through a function-pointer member named in the target's `externs` table: an unknown function that returns
+    an arbitrary value and stores an arbitrary value through one output argument (two extra parameters of the
+    generated function); the store must go through a local pointer that is the only access path to its array;
   * every local must be definitely assigned before it is read (conservative flow analysis in the translator;
     a possibly uninitialised read is outside the subset).
 FAIL CLOSED: anything else becomes `CUnsup "<what>"` at the statement where it occurs (the function then cannot
@@ -38,6 +42,7 @@ TARGETS = {
                 # (x<k>_<name>_out) through its argument number `out`; it is assumed to have no other effect
                 # on anything the translated function reads
                 externs={'inq_dim': dict(out=3)}),
+    'contig': dict(src='drivers/ncmpio/ncmpio_filetype.c', funcs=['is_request_contiguous']),
 }
 
 INT_TYPES = {
@@ -929,8 +934,9 @@ class Fn:
                 raise Unsupported('for init does not complete')
             entry = self.assigned
             cn = strip(cond)
-            if cn.get('kind') != 'BinaryOperator' or cn['opcode'] != '<':
-                raise Unsupported('loop condition is not of the form i < e: %s' % ctext(cond))
+            if cn.get('kind') != 'BinaryOperator' or cn['opcode'] not in ('<', '<=', '>', '>='):
+                raise Unsupported('loop condition is not of the form i < e, i <= e, i > e, i >= e: %s' % ctext(cond))
+            fuelfn = {'<': 'c_fuel_lt', '<=': 'c_fuel_le', '>': 'c_fuel_gt', '>=': 'c_fuel_ge'}[cn['opcode']]
             old = self.hoist
             self.hoist = None          # no calls in loop conditions
             try:
@@ -955,7 +961,7 @@ class Fn:
             L.append('(* %s *)' % ccomment('%s: for (%s; %s; %s)' % (self.name, ctext(init) if init else '', ctext(cond), ctext(inc) if inc else '')))
             L.append('Definition %s_cdef %s (s : %s) : bool := %s.' % (base, pdecl, self.st(), c.chk or 'true'))
             L.append('Definition %s_cond %s (s : %s) : bool := %s.' % (base, pdecl, self.st(), c.term))
-            L.append('Definition %s_fuel %s (s : %s) : nat := c_fuel_lt %s %s.' % (base, pdecl, self.st(), lo.term, hi.term))
+            L.append('Definition %s_fuel %s (s : %s) : nat := %s %s %s.' % (base, pdecl, self.st(), fuelfn, lo.term, hi.term))
             L.append('Definition %s_body %s (s : %s) : cres %s :=\n  %s.' % (base, pdecl, self.st(), self.st(), tb))
             L.append('Definition %s_inc %s (s : %s) : cres %s :=\n  %s.' % (base, pdecl, self.st(), self.st(), tinc))
             self.loops.append('\n'.join(L))
